@@ -128,7 +128,7 @@ def run(prog, rep, tier='quick'):
                 psd = obj.f.get(PSD_FIELD)
                 nf = obj.f.get('_Spectrum__NFFT')
                 if psd is not None and isinstance(nf, IntV) and nf.a == kw['NFFT'].a:
-                    report_conflicts(rep, 'role-no-numeric-NFFT', itp, ('nfft',), '%s,%s' % (cls.name, label), seen)
+                    report_conflicts(rep, 'role-no-numeric-NFFT', itp, ('nfft', 'index'), '%s,%s' % (cls.name, label), seen)
                     check_sink(rep, 'role-no-numeric-NFFT', cls.qname, label, 'psd', psd, {'nfft': F(0)}, where)
     # functional estimators that take NFFT
     P = lambda: C.symint('P', 2, 'order')
